@@ -10,7 +10,7 @@ func init() {
 			c.Do("C18.a", "L2+L1 re-positioning resets the merge heap", 6, func() { clMergeHeapReset(c) })
 			c.Do("C18.b", "L2 pop/advance/re-push pairing", 5, func() { clMergeNext(c) })
 			c.Do("C18.c", "L8+L2 per-level chaining", 12, func() { clBuilderChaining(c); clAssembleTable(c) })
-			c.Do("C18.d", "L9 builder accounting and statistics", 8, func() { clAccounting(c); clLocalStatsOwners(c); clRestoreItemSize(c) })
+			c.Do("C18.d", "L9 builder accounting and statistics", 8, func() { clAccounting(c); clLocalStatsOwners(c); clRestoreItemSize(c); clStatsAddOnOwnObject(c) })
 		},
 	})
 }
